@@ -802,75 +802,6 @@ Qed.
 Lemma delete_objs : forall f t, t_objs (fst (delete_patches f t)) = t_objs t.
 Proof. intros f t. unfold delete_patches. now destruct (split_at_first f (t_applied t)). Qed.
 
-Lemma refresh_closure : forall pn tmpname t,
-  wf_txn t ->
-  good (match t_patch t pn, t_patch t tmpname with
-        | Some pc, Some tc =>
-            let old := get (t_objs t) pc in
-            let new_tree := tree_of (t_objs t) tc in
-            let t1 :=
-              if tree_eqb new_tree (tree_of (t_objs t) pc) then (t, None)
-              else
-                let '(objs', o) :=
-                  put (t_objs t)
-                      (plain (parents_of (t_objs t) pc) new_tree
-                             (match old with Some c => c_meta c | None => 0%N end)
-                             (subj_of (t_objs t) pc)) in
-                (set_objs t objs', Some o) in
-            let '(t2, _) := delete_patches (fun n => name_eqb n tmpname) (fst t1) in
-            match snd t1 with
-            | Some o => update_patch pn o t2
-            | None => TOk t2
-            end
-        | _, _ => TPanic
-        end).
-Proof.
-  intros pn tmpname t W. destruct (t_patch t pn) as [pc|] eqn:Epc; [|exact I].
-  destruct (t_patch t tmpname) as [tc|]; [|exact I]. cbv zeta.
-  apply (wt_patch t W) in Epc.
-  destruct (tree_eqb _ _); cbn [fst snd].
-  - destruct (delete_patches _ t) as [t2 inc] eqn:Ed.
-    now destruct (delete_wf _ _ _ _ W Ed) as [W2 _].
-  - unfold put. cbv beta iota. cbn [fst snd].
-    set (c := plain _ _ _ _).
-    assert (W1 : wf_txn (set_objs t (t_objs t ++ [c]))).
-    { apply wf_txn_put; [exact W|]. apply patch_parents_plain; [apply W|exact Epc]. }
-    pose proof (delete_objs (fun n => name_eqb n tmpname) (set_objs t (t_objs t ++ [c]))) as Eo.
-    destruct (delete_patches _ (set_objs t (t_objs t ++ [c]))) as [t2 inc] eqn:Ed. cbn [fst] in Eo.
-    destruct (delete_wf _ _ _ _ W1 Ed) as [W2 _].
-    apply update_patch_wf; [exact W2|]. rewrite Eo, t_objs_set_objs. now apply patch_commit_copy.
-Qed.
-
-Lemma run_refresh_inv : forall w, Inv w -> Inv (fst (run_refresh w)).
-Proof.
-  intros w Hi. unfold run_refresh.
-  destruct (open_stack PAllow w) as [op|] eqn:Eo; [apply (open_ok _ _ _ Hi) in Eo|exact Hi].
-  destruct (negb (head_top_ok op)); [inv_leaf|].
-  destruct (last_error (s_applied (op_state op))) as [pn|]; [|inv_leaf].
-  destruct (w_unmerged (op_world op)); [inv_leaf|].
-  unfold put. cbv beta iota zeta.
-  pose proof Eo as [Hiw [[Hn _] _]]. apply Inv_iff in Hiw as [_ [Hbr _]].
-  match goal with |- context [transact ?o ?a ?f ?m] =>
-    assert (Hm : Inv (fst (transact o a f m))); [|destruct (transact o a f m) as [w2 x]] end.
-  { apply transact_inv.
-    - apply op_ok_put; [exact Eo|]. intros p [<-|[]]. exact Hbr.
-    - intros W. apply new_applied_wf; [exact W| |apply patch_commit_new].
-      apply uniquify_names_ok; [exact Hn|exact refresh_temp_valid].
-    - frame_auto. }
-  cbn [fst] in Hm. destruct x; try exact Hm.
-  destruct (open_stack PAllow w2) as [op2|] eqn:Eo2; [apply (open_ok _ _ _ Hm) in Eo2|exact Hm].
-  apply transact_inv; [exact Eo2| |].
-  - intros W. now apply refresh_closure.
-  - cbv beta. set (t := begin_txn op2 _). clearbody t.
-    destruct (t_patch t pn) as [pc|]; [|exact I].
-    destruct (t_patch t _) as [tc|]; [|exact I].
-    match goal with |- frame _ (match delete_patches ?f (fst ?t1) with _ => _ end) =>
-      assert (H1 : fr t (fst t1)); [|generalize dependent t1; intros t1' H1] end.
-    { destruct (tree_eqb _ _); cbn [fst]; [apply fr_refl|]. split; [reflexivity|].
-      rewrite t_objs_set_objs. apply store_extends_put. }
-    eapply frame_fr; [exact H1|]. frame_auto.
-Qed.
-
 Lemma run_spill_inv : forall w, Inv w -> Inv (fst (run_spill w)).
 Proof.
   intros w Hi. unfold run_spill.
@@ -1306,6 +1237,293 @@ Proof.
   destruct p; try discriminate; try (exfalso; now apply Hp);
     destruct (stack_base _ _ s); try discriminate; now injection H as <-.
 Qed.
+
+(* ---------------------------------------------------------------- refresh *)
+
+Lemma split_at_last : forall (f : name -> bool) A x,
+  (forall y, In y A -> f y = false) -> f x = true -> split_at_first f (A ++ [x]) = (A, [x]).
+Proof.
+  intros f A x HA Hx. unfold split_at_first. rewrite (position_char f (A ++ [x]) (length A) x).
+  - rewrite firstn_app, Nat.sub_diag, firstn_all, skipn_app, skipn_all, Nat.sub_diag. cbn.
+    now rewrite app_nil_r.
+  - rewrite firstn_app, Nat.sub_diag, firstn_all. cbn. rewrite app_nil_r. exact HA.
+  - rewrite skipn_app, skipn_all, Nat.sub_diag. reflexivity.
+  - exact Hx.
+Qed.
+
+Lemma delete_last : forall t0 A x,
+  t_applied t0 = A ++ [x] -> ~ In x A -> ~ In x (t_unapplied t0) -> ~ In x (t_hidden t0) ->
+  delete_patches (fun n => name_eqb n x) t0 =
+  (set_updated (set_lists t0 A (t_unapplied t0) (t_hidden t0)) (up_set (t_updated t0) x None), []).
+Proof.
+  intros t0 A x Ha HA HU HH. unfold delete_patches. rewrite Ha, split_at_last.
+  - assert (Hf : forall l, ~ In x l -> filter (fun n => name_eqb n x) l = []
+                           /\ filter (fun n => negb (name_eqb n x)) l = l).
+    { intros l Hl. split; [apply filter_none|apply filter_all]; intros y Hy;
+        destruct (name_eqb_spec y x) as [->|Hn]; try reflexivity; contradiction. }
+    destruct (Hf _ HU) as [-> ->]. destruct (Hf _ HH) as [-> ->].
+    cbn [filter]. rewrite name_eqb_refl. cbn [negb app]. reflexivity.
+  - intros y Hy. apply name_eqb_neq. intros ->. contradiction.
+  - apply name_eqb_refl.
+Qed.
+
+(* the applied list of a well-formed transaction that ends in x: x occurs nowhere else *)
+Lemma last_applied_fresh : forall t A x,
+  wf_txn t -> t_applied t = A ++ [x] ->
+  NoDup A /\ ~ In x A /\ ~ In x (t_unapplied t) /\ ~ In x (t_hidden t).
+Proof.
+  intros t A x W Ha.
+  pose proof (names_disjoint t (wt_names t W)) as [Hda [_ [_ [Hah _]]]].
+  rewrite Ha in Hda. apply NoDup_app_iff in Hda as [HdA [_ Hdis]].
+  assert (Hx : In x (t_applied t)) by (rewrite Ha; apply in_or_app; right; now left).
+  destruct (Hah x Hx) as [Hu Hh]. repeat split; auto.
+  intros Hin. apply (Hdis x Hin). now left.
+Qed.
+
+Lemma after_name_app : forall pn A r, In pn A -> after_name pn (A ++ r) = after_name pn A ++ r.
+Proof.
+  intros pn A r. induction A as [|x A IH]; intros Hin; [destruct Hin|]. cbn [after_name app].
+  destruct (name_eqb_spec x pn) as [->|Hn]; [reflexivity|].
+  destruct Hin as [->|Hin]; [congruence|]. now apply IH.
+Qed.
+
+Lemma after_name_incl : forall pn l x, In x (after_name pn l) -> In x l.
+Proof.
+  intros pn l x. destruct (after_name_skipn pn l) as [k ->]. apply In_skipn.
+Qed.
+
+Lemma removelast_snoc : forall (A : Type) (l : list A) x, removelast (l ++ [x]) = l.
+Proof. intros A l x. apply removelast_last. Qed.
+
+Lemma t_patch_set_objs : forall t o n, t_patch (set_objs t o) n = t_patch t n.
+Proof. reflexivity. Qed.
+
+(* the EditBuilder step *)
+Lemma refresh_commit_wf : forall t pn pc tr t2 newc,
+  wf_txn t -> t_patch t pn = Some pc -> refresh_commit t pc tr = (t2, newc) ->
+  wf_txn t2 /\ same_lists t t2 /\ (forall n, t_patch t2 n = t_patch t n)
+  /\ (forall o, newc = Some o -> is_patch_commit (t_objs t2) o).
+Proof.
+  intros t pn pc tr t2 newc W Epc E. unfold refresh_commit in E.
+  destruct (tree_eqb _ _).
+  - injection E as <- <-. split; [exact W|]. split; [repeat split|]. split; [reflexivity|discriminate].
+  - unfold put in E. injection E as <- <-. apply (wt_patch t W) in Epc. split.
+    + apply wf_txn_put; [exact W|]. apply patch_parents_plain; [apply W|exact Epc].
+    + split; [repeat split|]. split; [reflexivity|]. intros o Eo. injection Eo as <-.
+      rewrite t_objs_set_objs. now apply patch_commit_copy.
+Qed.
+
+Lemma pop_last : forall t0 A x,
+  t_applied t0 = A ++ [x] -> ~ In x A ->
+  pop_patches (fun n => name_eqb n x) t0 =
+  (set_lists t0 A (x :: t_unapplied t0) (t_hidden t0), []).
+Proof.
+  intros t0 A x Ha HA. unfold pop_patches. rewrite Ha, split_at_last.
+  - cbn [filter]. rewrite name_eqb_refl. cbn [negb app]. reflexivity.
+  - intros y Hy. apply name_eqb_neq. intros ->. contradiction.
+  - apply name_eqb_refl.
+Qed.
+
+Lemma refresh_commit_same : forall t pc tr t2 newc,
+  refresh_commit t pc tr = (t2, newc) ->
+  t_stack t2 = t_stack t /\ t_updated t2 = t_updated t /\ t_all t2 = t_all t.
+Proof.
+  intros t pc tr t2 newc E. unfold refresh_commit in E. destruct (tree_eqb _ _).
+  - injection E as <- _. auto.
+  - unfold put in E. injection E as <- _. auto.
+Qed.
+
+Lemma delete_tmp_facts : forall x K t t3 inc,
+  wf_txn t -> t_applied t = K ++ [x] -> delete_patches (fun n => name_eqb n x) t = (t3, inc) ->
+  wf_txn t3 /\ t_applied t3 = K /\ t_unapplied t3 = t_unapplied t /\ t_hidden t3 = t_hidden t
+  /\ t_objs t3 = t_objs t.
+Proof.
+  intros x K t t3 inc W Ha E. destruct (delete_wf _ _ _ _ W E) as [W3 _].
+  destruct (last_applied_fresh t K x W Ha) as [_ [HK [HU HH]]].
+  rewrite (delete_last t K x Ha HK HU HH) in E. injection E as <- _. auto.
+Qed.
+
+Definition absorb_mid (tmpname : name) (R : list name) (t t1 : txn) : Prop :=
+  wf_txn t1 /\ Permutation (t_all t1) (t_all t)
+  /\ exists K, t_applied t1 = K ++ [tmpname]
+       /\ forall n, In n R -> In n (t_all t1) /\ ~ In n K.
+
+Lemma edit_popped_all : forall t k, t_all (edit_popped t k) = t_all t.
+Proof.
+  intros t k. unfold t_all, edit_popped.
+  rewrite t_applied_set_lists, t_unapplied_set_lists, t_hidden_set_lists.
+  rewrite <- app_assoc, app_assoc. now rewrite firstn_skipn.
+Qed.
+
+Lemma refresh_absorb_step1 : forall pn tmpname A t,
+  wf_txn t -> t_applied t = A ++ [tmpname] -> In pn A ->
+  res_sat (absorb_mid tmpname (after_name pn A) t)
+    (if Nat.ltb 1 (length (after_name pn A ++ [tmpname])) then
+       let '(t1, extra) := pop_patches (fun n => mem n (after_name pn A ++ [tmpname])) t in
+       match extra with
+       | _ :: _ => TPanic
+       | [] => push_patches [tmpname] false t1
+       end
+     else TOk t).
+Proof.
+  intros pn tmpname A t W Ha Hin.
+  destruct (edit_pop_facts pn t W) as (k & Hk & Hpop & W1 & Hds & Hin1).
+  rewrite Ha, (after_name_app pn A [tmpname] Hin), <- Ha in Hk.
+  destruct (Nat.ltb 1 _) eqn:El.
+  - rewrite Hk, Hpop.
+    assert (Htmp : In tmpname (skipn k (t_applied t))).
+    { rewrite <- Hk. apply in_or_app. right. now left. }
+    eapply res_sat_impl.
+    + apply push_patches_wf; [exact W1|repeat constructor; intros []|].
+      intros n [<-|[]]. now apply Hin1.
+    + intros t1 [W1' [Ha1 [_ Hperm]]]. split; [exact W1'|].
+      split; [now rewrite <- (edit_popped_all t k)|].
+      exists (firstn k (t_applied t)). split; [exact Ha1|].
+      intros n Hn. assert (Hn' : In n (skipn k (t_applied t))).
+      { rewrite <- Hk. apply in_or_app. now left. }
+      destruct (Hin1 n Hn') as [H1 H2]. split; [|exact H2].
+      apply (Permutation_in _ (Permutation_sym Hperm)). exact H1.
+  - cbn [res_sat]. split; [exact W|]. split; [apply Permutation_refl|]. exists A. split; [exact Ha|].
+    destruct (after_name pn A) as [|y r]; [intros n []|].
+    apply Nat.ltb_ge in El. rewrite app_length in El. cbn [length] in El. lia.
+Qed.
+
+Lemma refresh_absorb_wf : forall pn tmpname A t,
+  wf_txn t -> t_applied t = A ++ [tmpname] -> pn <> tmpname ->
+  good (refresh_absorb pn tmpname t).
+Proof.
+  intros pn tmpname A t W Ha Hne. unfold refresh_absorb.
+  destruct (mem pn (t_applied t)) eqn:Em.
+  - apply mem_In in Em. rewrite Ha in Em. apply in_app_or in Em as [Hin|[Hx|[]]]; [|congruence].
+    cbv zeta. rewrite Ha, (after_name_app pn A [tmpname] Hin).
+    set (R := after_name pn A).
+    assert (HdR : NoDup R /\ ~ In tmpname R).
+    { destruct (last_applied_fresh t A tmpname W Ha) as [HdA [HA _]].
+      unfold R. destruct (after_name_skipn pn A) as [j ->]. split.
+      - now apply (NoDup_firstn_skipn _ j A HdA).
+      - intros Hi. apply HA. now apply In_skipn in Hi. }
+    destruct HdR as [HdR HtR].
+    eapply res_sat_tbind; [exact (refresh_absorb_step1 pn tmpname A t W Ha Hin)|].
+    intros t1 [W1 [_ [K [Ha1 HR]]]]. fold R in HR.
+    destruct (t_patch t1 pn) as [pc|] eqn:Epc; [|exact I].
+    destruct (t_patch t1 tmpname) as [tc|]; [|exact I].
+    unfold last_error. rewrite last_error_app. rewrite name_eqb_refl. cbn [negb].
+    rewrite removelast_snoc.
+    destruct (refresh_commit t1 pc (tree_of (t_objs t1) tc)) as [t2 newc] eqn:Erc.
+    destruct (refresh_commit_wf t1 pn pc _ t2 newc W1 Epc Erc) as [W2 [[L1 [L2 L3]] [Hp2 Ho2]]].
+    destruct (delete_patches _ t2) as [t3 inc] eqn:Ed.
+    assert (Ha2 : t_applied t2 = K ++ [tmpname]) by congruence.
+    destruct (delete_tmp_facts tmpname K t2 t3 inc W2 Ha2 Ed) as [W3 [A3 [U3 [H3 O3]]]].
+    assert (Hpush : forall t4, wf_txn t4 -> same_lists t3 t4 -> good (push_patches R false t4)).
+    { intros t4 W4 [M1 [M2 M3]].
+      eapply res_sat_impl; [apply push_patches_wf; [exact W4|exact HdR|]|intros t' P; apply P].
+      intros n Hn. destruct (HR n Hn) as [H1 H2]. rewrite M1, A3. split; [|exact H2].
+      apply in_all_cases. rewrite M1, M2, M3, A3, U3, H3, L2, L3.
+      apply in_all_cases in H1. rewrite Ha1 in H1. destruct H1 as [H1|H1]; [|now right].
+      apply in_app_or in H1 as [H1|[<-|[]]]; [now left|contradiction]. }
+    destruct newc as [o|]; cbn [tbind].
+    + pose proof (update_patch_wf pn o t3 W3) as Hu. rewrite O3 in Hu. specialize (Hu (Ho2 o eq_refl)).
+      unfold update_patch in *. destruct (t_patch t3 pn); [|exact I]. cbn [tbind]. cbn [good res_sat] in Hu.
+      apply Hpush; [exact Hu|repeat split].
+    + apply Hpush; [exact W3|repeat split].
+  - destruct (pop_patches _ t) as [t1 extra] eqn:Ep.
+    destruct (pop_wf _ _ _ _ W Ep) as [W1 _].
+    destruct extra; [|exact I].
+    destruct (t_patch t1 pn) as [pc|] eqn:Epc; [|exact I].
+    destruct (t_patch t1 tmpname) as [tc|]; [|exact I].
+    destruct (first_parent _ _) as [tpar|]; [|apply W1].
+    destruct (apply3way _ _ _ _) as [tree'|]; [|exact W1].
+    destruct (refresh_commit t1 pc tree') as [t2 newc] eqn:Erc.
+    destruct (refresh_commit_wf t1 pn pc _ t2 newc W1 Epc Erc) as [W2 [_ [Hp2 Ho2]]].
+    assert (Hdel : forall t3, wf_txn t3 ->
+              good (TOk (fst (delete_patches (fun n => name_eqb n tmpname) t3)))).
+    { intros t3 W3. destruct (delete_patches _ t3) as [t4 inc] eqn:Ed.
+      now destruct (delete_wf _ _ _ _ W3 Ed) as [W4 _]. }
+    destruct newc as [o|]; cbn [tbind].
+    + pose proof (update_patch_wf pn o t2 W2 (Ho2 o eq_refl)) as Hu.
+      unfold update_patch in *. destruct (t_patch t2 pn); [|exact I]. cbn [tbind]. cbn [good res_sat] in Hu.
+      now apply Hdel.
+    + now apply Hdel.
+Qed.
+
+(* the stack the second transaction of refresh is opened on *)
+Lemma refresh_reopened : forall op o tmpname tmpc w2 op2,
+  transact op o (new_applied tmpname tmpc) MOp = (w2, X0) ->
+  open_stack PAllow w2 = Some op2 ->
+  s_applied (op_state op2) = s_applied (op_state op) ++ [tmpname]
+  /\ s_unapplied (op_state op2) = s_unapplied (op_state op)
+  /\ s_hidden (op_state op2) = s_hidden (op_state op).
+Proof.
+  intros op o tmpname tmpc w2 op2 E Eo.
+  apply transact_X0_cur in E as (t' & th & prev & st1 & Ef & Hc).
+  rewrite (open_state_cur PAllow w2 op2 _ ltac:(discriminate) Eo Hc).
+  unfold new_applied in Ef.
+  destruct (first_parent _ _); [|discriminate]. destruct (t_top _); [|discriminate].
+  destruct (Nat.eqb _ _); [|discriminate]. injection Ef as <-. auto.
+Qed.
+
+(* the locator of stg refresh -p is well-formed, and the patch it names is a visible one *)
+Lemma refresh_loc_wf : forall (p : option str) loc_l,
+  match p with
+  | Some o => match parse_locator o with Some l => Some (Some l) | None => None end
+  | None => Some None
+  end = Some loc_l ->
+  forall l, loc_l = Some l -> wf_loc l.
+Proof.
+  intros p loc_l E l ->. destruct p as [o|]; [|discriminate].
+  destruct (parse_locator o) as [l'|] eqn:Epl; [|discriminate]. injection E as <-.
+  now apply parsed_wf in Epl.
+Qed.
+
+Lemma refresh_target_in : forall s loc_l pn,
+  (forall l, loc_l = Some l -> wf_loc l) ->
+  match loc_l with
+  | Some l => resolve_constrained (view_of s) LCVisible l
+  | None => match last_error (s_applied s) with Some n => ROk n | None => RErr ENoLastPatch end
+  end = ROk pn ->
+  In pn (s_applied s ++ s_unapplied s).
+Proof.
+  intros s loc_l pn Hwf E. destruct loc_l as [l|].
+  - pose proof (resolve_constrained_ok (view_of s) LCVisible l (Hwf l eq_refl)) as Hs.
+    rewrite E in Hs. exact Hs.
+  - destruct (last_error (s_applied s)) as [n|] eqn:El; [|discriminate].
+    injection E as <-. apply in_or_app. left. now apply last_error_In in El.
+Qed.
+
+Lemma run_refresh_inv : forall w p, Inv w -> Inv (fst (run_refresh w p)).
+Proof.
+  intros w p Hi. unfold run_refresh.
+  destruct (match p with Some o => _ | None => _ end) as [loc_l|] eqn:Ep; [|exact Hi].
+  pose proof (refresh_loc_wf p loc_l Ep) as Hwf. clear Ep.
+  destruct (open_stack PAllow w) as [op|] eqn:Eo; [apply (open_ok _ _ _ Hi) in Eo|exact Hi].
+  destruct (negb (head_top_ok op)); [inv_leaf|].
+  match goal with |- Inv (fst (rres_bind _ ?r _)) =>
+    destruct r as [pn| |] eqn:Epn; cbn [rres_bind]; [|inv_leaf|inv_leaf] end.
+  destruct (w_unmerged (op_world op)); [inv_leaf|].
+  unfold put. cbv beta iota zeta.
+  pose proof Eo as [Hiw [[Hn [_ [Hdom _]]] _]]. apply Inv_iff in Hiw as [_ [Hbr _]].
+  set (tmpname := match uniquify s_refresh_temp [] (all_of (op_state op)) with
+                  | UOk n => n | UFuel => s_refresh_temp end).
+  assert (Hnm : names_ok (tmpname :: all_of (op_state op))).
+  { apply uniquify_names_ok; [exact Hn|exact refresh_temp_valid]. }
+  pose proof (refresh_target_in (op_state op) loc_l pn Hwf Epn) as Hpn.
+  assert (Hne : pn <> tmpname).
+  { intros ->. destruct Hnm as [Hnd _]. inversion Hnd as [|x l Hx _]. apply Hx.
+    unfold all_of. rewrite app_assoc. apply in_or_app. now left. }
+  match goal with |- context [transact ?o ?a ?f ?m] =>
+    assert (Hm : Inv (fst (transact o a f m))); [|destruct (transact o a f m) as [w2 x] eqn:Et] end.
+  { apply transact_inv.
+    - apply op_ok_put; [exact Eo|]. intros q [<-|[]]. exact Hbr.
+    - intros W. apply new_applied_wf; [exact W|exact Hnm|apply patch_commit_new].
+    - frame_auto. }
+  cbn [fst] in Hm. destruct x; try exact Hm.
+  destruct (open_stack PAllow w2) as [op2|] eqn:Eo2; [|exact Hm].
+  destruct (refresh_reopened _ _ _ _ _ _ Et Eo2) as [Ha2 _].
+  apply (open_ok _ _ _ Hm) in Eo2.
+  apply transact_inv; [exact Eo2| |apply frame_refresh_absorb].
+  intros W. eapply refresh_absorb_wf; [exact W|exact Ha2|exact Hne].
+Qed.
+
 
 Lemma log_extmods_first_lists : forall op0 op,
   log_extmods_first op0 = Some op ->
